@@ -27,6 +27,7 @@ func dbUserDataSpecs() []ir.Callee {
 func checkC02(c *chk.Ctx) {
 	h := newH(c)
 	c.Decided = []string{
+		"R02e the client never fails a write that is already on the wire with an error its own batch layer classifies as retriable: a write with unknown outcome is not sent a second time",
 		"R02a every public data-path method of the leader controller checks status==LEADER under the controller lock before any DB access can start",
 		"R02b the read entry points never reach the WAL (reads are served from the DB, which holds committed state only)",
 		"R02c every DB apply site is behind a commit guard (shared with C01)",
@@ -35,11 +36,12 @@ func checkC02(c *chk.Ctx) {
 	c.NotDec = []string{
 		"linearizability of complete histories (needs a history checker)",
 		"stale reads of a deposed leader (allowed by the statement)",
-		"at-most-once effect of writes with unknown outcome",
+		"at-most-once effect of writes with unknown outcome beyond the client's own retry classification (R02e)",
 	}
 	ruleR02a(h)
 	ruleR02b(h)
 	ruleR01d(h, "R02c")
+	ruleR02e(h)
 	ruleR06dInto(h, "R02d", false)
 }
 
@@ -424,5 +426,84 @@ func ruleR02b(h *H) {
 		} else {
 			h.OK(rule, "read entry "+name, h.P.Pos(m.Pos()), fmt.Sprintf("%d reachable functions, none touches the WAL", len(fns)))
 		}
+	}
+}
+
+// ruleR02e: the batch layer re-sends a write request when its error is "retriable" (the
+// connection could not be made, the node is not the leader ...): all cases in which the
+// request was not accepted. A request that is pending on a write stream WAS sent; when the
+// stream ends its outcome is unknown, so the error handed to it must not be one of the
+// retriable kind, or the same write is applied twice.
+func ruleR02e(h *H) {
+	const rule = "R02e"
+	h.Rule(rule, "K4", "no method of the client's write-stream wrapper constructs a gRPC status error whose code the batch layer's retry predicate (the function comparing status.Code(err) with code constants) accepts", 1)
+	// the retriable codes: constants compared with status.Code(err) in oxia/internal/batch
+	retriable := map[string]bool{}
+	var pred *ssa.Function
+	for _, fn := range h.P.Funcs {
+		if ir.RelPkg(ir.PkgPathOf(fn)) != "oxia/internal/batch" || fn.Blocks == nil || fn.Signature.Results().Len() != 1 || fn.Signature.Results().At(0).Type().String() != "bool" {
+			continue
+		}
+		var code ssa.Value
+		ir.Instrs(fn, func(in ssa.Instruction) {
+			if c, ok := in.(*ssa.Call); ok {
+				if f := c.Call.StaticCallee(); f != nil && f.Pkg != nil && f.Pkg.Pkg.Path() == "google.golang.org/grpc/status" && f.Name() == "Code" {
+					code = c
+				}
+			}
+		})
+		if code == nil {
+			continue
+		}
+		pred = fn
+		for e, c := range ir.EdgeCmps(fn) {
+			_ = e
+			for _, cc := range []ir.Cmp{c, c.Flip()} {
+				if cc.Op == token.EQL && ir.Canon(cc.L) == code {
+					if k, ok := ir.Canon(cc.R).(*ssa.Const); ok && k.Value != nil {
+						retriable[k.Value.ExactString()] = true
+					}
+				}
+			}
+		}
+	}
+	if pred == nil || len(retriable) == 0 {
+		h.Anchor(rule, "the retry predicate of the client's batch layer (status.Code compared with code constants)")
+		return
+	}
+	h.Fn(ir.FuncName(pred))
+	n, built := 0, 0
+	for _, fn := range h.P.Funcs {
+		o := ir.Outermost(fn)
+		if ir.RelPkg(ir.PkgPathOf(fn)) != "oxia/internal" || o.Signature.Recv() == nil || !ir.TypeIs(o.Signature.Recv().Type(), "oxia/internal", "streamWrapper") {
+			continue
+		}
+		n++
+		h.Fn(ir.FuncName(fn))
+		fn := fn
+		ir.Instrs(fn, func(in ssa.Instruction) {
+			c, ok := in.(*ssa.Call)
+			if !ok {
+				return
+			}
+			f := c.Call.StaticCallee()
+			if f == nil || f.Pkg == nil || f.Pkg.Pkg.Path() != "google.golang.org/grpc/status" || len(c.Call.Args) == 0 {
+				return
+			}
+			if f.Name() != "Error" && f.Name() != "Errorf" && f.Name() != "New" && f.Name() != "Newf" {
+				return
+			}
+			built++
+			k, isK := ir.Canon(c.Call.Args[0]).(*ssa.Const)
+			bad := !isK || k.Value == nil || retriable[k.Value.ExactString()]
+			h.Verdict(!bad, rule, fmt.Sprintf("status error #%d built in %s", built, ir.FuncName(fn)), h.pos(in), "a code the batch layer does not retry", "the write-stream wrapper builds an error with a code that "+ir.FuncName(pred)+" treats as retriable: a request that is pending on the stream (already sent, outcome unknown) is failed with it and sent again, so one write can take effect twice")
+		})
+	}
+	if n == 0 {
+		h.Anchor(rule, "methods of the client's write-stream wrapper (oxia/internal.streamWrapper)")
+		return
+	}
+	if built == 0 {
+		h.OK(rule, "errors handed to pending writes", "", fmt.Sprintf("%d functions of the write-stream wrapper construct no gRPC status error; retriable codes: %d", n, len(retriable)))
 	}
 }
